@@ -2,6 +2,7 @@ package openapi3
 
 import (
 	"context"
+	"net/url"
 	"path"
 	"strings"
 )
@@ -45,6 +46,10 @@ func DefaultRefNameResolver(doc *T, ref ComponentRef) string {
 		nameInRoot = strings.TrimPrefix(nameInRoot, "#")
 
 		rootCompURI := copyURI(doc.url)
+		if rootCompURI == nil {
+			// the root document was loaded from memory, without a location
+			rootCompURI = new(url.URL)
+		}
 		rootCompURI.Fragment = nameInRoot
 		name = rootCompURI
 	}
